@@ -174,6 +174,8 @@ def reader_shape(repo, mod, fn, reads, fields=None):
                 f = "<elem>"
             if kind == "int":
                 end = "LE" if wrap.startswith("LE") else "BE"
+                if wrap[2:].startswith("-signed"):
+                    end += "-signed"  # two's complement reading: not the unsigned codec of the writers / the protocol tables
                 out.append(("int", detail, end, f))
             elif kind == "bytes":
                 # a constant check right after?  `marker = s.read(2); if marker != b"..": raise`
